@@ -15,7 +15,8 @@ ASSUMPTIONS = ["rows whose node probability is within 1e-9 of the node threshold
 
 DESIGN6 = [[0.0, 0.0], [1.0, 0.5], [2.0, 3.0], [3.0, 1.0], [0.5, 2.5], [2.5, 2.0]]
 DESIGN8 = DESIGN6 + [[1.5, 1.5], [3.5, 3.5]]
-LABELS = {"01": (0, 1), "m11": (-1, 1), "ab": ("a", "b"), "fl": (0.5, 2.5)}
+LABELS = {"01": (0, 1), "m11": (-1, 1), "ab": ("a", "b"), "fl": (0.5, 2.5), "alen": ("a", "ab"), "yn": ("no", "yes!"),
+          "negf": (-2.5, -0.5), "bool": (False, True), "big": (3, 10 ** 12)}
 
 
 LAYOUTS = ["Fortran order", "strided window of a larger table", "negative strides", "transposed window", "read-only"]
@@ -48,7 +49,7 @@ def cases(tier, seed):
             yield {"n": 6, "y": list(v), "labels": "01", "full": True}
             if (i + seed) % 4 == 0:
                 yield {"n": 6, "y": list(v), "labels": "01", "full": False, "inexact": True}
-            lab = ("m11", "ab", "fl")[(i + seed) % 3]
+            lab = ("m11", "ab", "fl", "alen", "yn", "negf", "bool", "big")[(i + seed) % 8]
             yield {"n": 6, "y": list(v), "labels": lab, "full": False}
             if (i + seed) % 6 == 0:
                 for lay in LAYOUTS:
